@@ -372,7 +372,9 @@ def api (c : Cl) (call : String) (a : Api) : Cl :=
 
 /-- `topicForPublish` -/
 def topicFor (c : Cl) (tit : UInt8) (tid : UInt16) : Option Bytes :=
-  if tit = Gen.TIT_REGISTERED then (c.registered.find? (·.2 == tid)).map (·.1)
+  if tit = Gen.TIT_REGISTERED then
+    -- `findTopic` ranges over the map name ↦ ID: only the live (newest) binding of a name counts
+    (c.registered.find? fun p => p.2 == tid && c.registered.lookup p.1 == some tid).map (·.1)
   else if tit = Gen.TIT_PREDEFINED then c.cfg.predef.getTopicName c.cfg.cid tid
   else if tit = Gen.TIT_SHORT then some (decodeShortTopic tid)
   else none
